@@ -765,7 +765,12 @@ class Engine:
             out = _err_name(e)
         # "the current Reader object is modified in place": after a successful in-place call the SAME object, re-opened, must show
         # the recording exactly as a fresh Reader on the new file does (shape and every value)
-        if out == 'ok' and kind in ('compress', 'decompress') and not op['keep'] and op.get('reopen', 1):
+        # Demanded only where the property speaks: the call ran to completion without an injected fault (the published file is
+        # complete) on a reader opened for this call.  (Corrected after a false alarm of the thorough tier: a reader object
+        # opened EARLIER in the history caches the size of a file that later calls rewrote or left partial — plain decompress_file
+        # is not atomic and the property does not claim it — and fails to re-open for that reason, not because of this call.)
+        if (out == 'ok' and kind in ('compress', 'decompress') and not op['keep'] and op.get('reopen', 1)
+                and not fired and not xfired and not pf and k is None and str(op.get('reader', 'new')).startswith('new')):
             out += _reopen_same_object(sr)
         j = 'N' if (k is None or k >= n_src) else str((k // T) * T)
         # the model line: the call with its fault point (FsCompress.step), or — for an interruption between two effects, and for
